@@ -132,7 +132,28 @@ func (tw *twin) multiStep(r *Rng, side *Sidecar, cases *CasesFile, idx *int, seq
 		preA[a.GetEthAddress().Hex()] = tw.acctAt(tw.A, qA, a.GetCosmosAddress(), tw.A.Time)
 	}
 	res := tw.A.C11SendEth(sender, caller.GetEthAddress(), nil, txGas)
-	require.Equal(t, uint32(0), res.Code, "transaction rejected before execution: %s", res.Log)
+	if res.Code != 0 {
+		// the whole transaction died: legitimate only where a native message server panics as well (natively the whole
+		// transaction dies, too); then nothing happens on either chain
+		nativePanics := false
+		for _, ns := range nss {
+			for _, en := range ns.script {
+				nativePanics = nativePanics || en.panicked
+			}
+		}
+		side.Count("multi:transaction-panicked")
+		if !nativePanics {
+			side.Hit("C11/staking/multi-call/transaction-died-where-native-submission-does-not", fmt.Sprintf("the Ethereum transaction was rejected with code %d although no native message of the submissions panics", res.Code), nil)
+		}
+		tw.B.C11IdleBlock(callerAcc, txGas)
+		pa, _ := tw.projection(tw.A)
+		pb, _ := tw.projection(tw.B)
+		if pa != pb {
+			tw.diverged = true
+			side.Hit("C11/staking/multi-call/state-differs-from-native", "a transaction that died changed the state", nil)
+		}
+		return
+	}
 	require.Equal(t, uint64(1), res.Status, "the multi-call contract itself failed: %s", res.VmError)
 	require.Len(t, res.Ret, 32)
 	mask := new(big.Int).SetBytes(res.Ret)
